@@ -309,17 +309,22 @@ pub fn overlapping_connections(rep: &Report) -> u64 {
             second.login(&params("Second"), Stage::Connected, Stage::InConfiguration, &mut o2).await;
             tokio::time::sleep(Duration::from_millis(30)).await;
             if fail {
+                // the first player's call is let through (and fails); then everybody else's
                 gate.add_permits(1);
+                tokio::time::sleep(Duration::from_millis(60)).await;
+                gate.add_permits(4);
                 let from = o1.stage;
-                first.login(&params("First"), from, Stage::Transferred, &mut o1).await;
-                if went(&o1).is_some() {
-                    rep.violation(Violation { key: "connection:routed-without-a-discovery-result".into(), text: format!("{label}: the first player's discovery call failed, yet it was sent to {:?}", went(&o1)), replay: replay.clone(), weight: 4 });
+                first.login(&LoginParams { wait: Duration::from_millis(1200), ..params("First") }, from, Stage::Transferred, &mut o1).await;
+                // whether or not the router asks discovery again for this player: if it is routed at all, then to a
+                // target that qualifies now
+                if went(&o1).is_some() && went(&o1).as_deref() != Some("10.0.0.2") {
+                    rep.violation(Violation { key: "connection:disqualified-target-chosen".into(), text: format!("{label}: the first player, whose discovery call failed, was sent to {:?}; only `b` (10.0.0.2) is online", went(&o1)), replay: replay.clone(), weight: 4 });
                 }
             } else {
                 drop(first);
+                tokio::time::sleep(Duration::from_millis(60)).await;
+                gate.add_permits(4);
             }
-            tokio::time::sleep(Duration::from_millis(60)).await;
-            gate.add_permits(4);
             let from = o2.stage;
             second.login(&params("Second"), from, Stage::Transferred, &mut o2).await;
             if went(&o2).as_deref() != Some("10.0.0.2") {
